@@ -8,9 +8,10 @@ RULES = {
     'C09.R1': 'one closed sign convention: evaluate_decision tests (mat·x - bias) <= 0 and sets bit i for a satisfied row; both path-polytope builders map '
               'label 1 -> (+mat,+bias), label 0 -> (-mat,-bias) (same factor on both fields, other labels panic) on the predicate of the edge\'s source node',
     'C09.R3': 'path-condition stack discipline of PolyhedraGen::next: |predicates| = depth of the reported node after every call (also after deep returns and skips)',
+    'C09.R4': 'each node is reported once in depth-first order with correct depth and sibling counters, also after skips (DfsPre rules shared with C13)',
     'C09.R2': 'find_terminal pushes the label it follows and returns the node it reached; PolyhedraGen::next builds the predicate from the parent edge of the node it reports',
 }
-FLOORS = {'C09.R1': 4, 'C09.R2': 3, 'C09.R3': 1}
+FLOORS = {'C09.R1': 4, 'C09.R2': 3, 'C09.R3': 1, 'C09.R4': 8}
 EXPLANATION = 'The evaluator and the two region builders implement the same closed half-space per label, for every tree and input (exact arithmetic).'
 DOES_NOT_DECIDE = ('traversals started below the root with PolyhedraGen::with_root (the path above the start node is not reconstructed); disjoint interiors and coverage (set reasoning); '
                    'ordering/depth counters (C13)')
@@ -227,6 +228,28 @@ def run(ctx):
         (ctx.ok if ok else ctx.bad)('C09.R2', 'PolyhedraGen::next#reported-node',
                                     'the predicate pushed belongs to the parent edge of the node that is reported' if ok else 'the node whose parent edge is pushed is not the node reported', b.span)
     stack_discipline(ctx)
+    # R4: nodes are reported once each in depth-first order with correct depth / sibling counters, also when subtrees are skipped:
+    # the depth-first traversal underneath polyhedra() (rules shared with C13, restricted to DfsPre)
+    from ..core import Ctx
+    from . import c13
+    sub = Ctx(ctx.facts, ctx.tier, ctx.prop)
+    imp = c13.impls(ctx.facts)
+    if 'DfsPre' in imp:
+        m = imp['DfsPre']
+        c13.r1(sub, 'DfsPre', m['new'])
+        disc = c13.r2(sub, 'DfsPre', m)
+        c13.r4(sub, 'DfsPre', m, disc)
+        for i in sub.insts:
+            i.rule = 'C09.R4'
+            ctx.insts.append(i)
+    else:
+        ctx.lost('C09.R4', 'impl TraversalMut for DfsPre')
+    pg = ctx.body('C09.R4', 'PolyhedraGen::with_root')
+    if pg is not None:
+        Rp = Resolver(pg)
+        rets = [e for _, e in Rp.return_expr()]
+        ok = len(rets) == 1 and any(is_call(x, 'DfsPre::new') and x[2][1] == ('param', 'root') for x in walk(rets[0]))
+        (ctx.ok if ok else ctx.bad)('C09.R4', 'PolyhedraGen::with_root#traversal', 'path conditions are produced along a DfsPre traversal from the given root' if ok else 'PolyhedraGen is not driven by DfsPre::new(tree, root)', pg.span)
     b = ctx.body('C09.R2', 'AffTree::evaluate')
     if b is not None:
         R = Resolver(b)
